@@ -59,17 +59,18 @@ TEXT = {
         technique="runtime oracle (extended-precision residual monitor at the public accessors) over seeded histories + fixed regression corpus, ASan+UBSan build"),
     "C05": dict(
         level_text="Exploration: a consistency monitor applied after every compute() of ~3900 (quick) random call interleavings over 17 solver configurations: counts, status, eigenvectors(m) for every m, "
-                   "sorting order, value/column pairing, num_operations() against a counting operator wrapper, restarts (hook events) against maxit, NotComputed/empty before the first compute().",
+                   "sorting order, value/column pairing, num_operations() against a counting operator wrapper, restarts (hook events) against maxit, NotComputed/empty before the first compute(). The same driver, built without a sanitizer, runs its cases under valgrind memcheck as well "
+                   "(definedness of every value that reaches a branch or an address).",
         design_ref="DESIGN.md section 3, C05",
         level_note=NOTE_COMMON,
-        technique="runtime API-consistency monitor with counting operator wrapper and factorization hook events, ASan+UBSan build"),
+        technique="runtime API-consistency monitor with counting operator wrapper and factorization hook events, ASan+UBSan build; valgrind memcheck on the same driver"),
     "C06": dict(
         level_text="Exploration: history checker comparing, bit for bit, the observed init(v); compute(args) on a fresh solver, on a solver reused after a random pre-history (incl. non-converging and "
                    "throwing computes - thrown at once, and thrown late: an unsupported sorting rule is rejected only after the iteration) and on a second solver sharing the operator object; operator probed "
                    "with a fixed vector before/after compute() and after every step of the pre-history. 3000 (quick) triples over 17 configurations.",
         design_ref="DESIGN.md section 3, C06",
         level_note=NOTE_COMMON + " Davidson / PartialSVD reuse is covered by C15 / C16.",
-        technique="runtime history checker (bitwise snapshot comparison, operator probe), ASan+UBSan build"),
+        technique="runtime history checker (bitwise snapshot comparison, operator probe), ASan+UBSan build; valgrind memcheck on the same driver"),
     "C13": dict(
         level_text="Exploration under two sanitizer builds (Eigen assertions on / release-like): ~4500 hostile runs per build and tier over 17 solver configurations + PartialSVD with degenerate matrices, "
                    "validating operator wrapper, operator-application bound plus a CPU-seconds budget per case for loops that apply no operator (30 CPU-s where cases take milliseconds; confirmed by "
@@ -77,7 +78,7 @@ TEXT = {
                    "(nev_adjusted + the real restart) through guarded friend access for every ncv <= 10 (14 thorough).",
         design_ref="DESIGN.md section 3, C13",
         level_note=NOTE_COMMON + " Buckling mode with a singular K_G (eigenvalues at infinity) is outside the documented domain and not generated.",
-        technique="AddressSanitizer/UBSan + validating/counting operator wrapper + outcome classifier over hostile workloads; small-scope state enumeration through guarded friend"),
+        technique="AddressSanitizer/UBSan + validating/counting operator wrapper + outcome classifier over hostile workloads; valgrind memcheck on the same driver (uninitialised reads, byte-exact addressability); CPU-budget termination monitor; small-scope state enumeration through guarded friend"),
     "C14": dict(
         level_text="Fault enumeration, exhaustive in the fault index: for 102 (quick) solver/input pairs every operator application index of the fault-free run (A-operator and B-operator) is faulted with an object derived from std::exception "
                    "and with one that is not (plain struct / enum value; ~30000 faulted runs) plus ~9000 fault pairs; exception identity, call site, bitwise recovery against the baseline, allocated bytes and LeakSanitizer.",
